@@ -27,10 +27,44 @@ def known_finding_replay(ctx):
                                  % (k["id"], ops[3][1][0], k["what"][:120]))
 
 
+def verdict_matrix(ctx):
+    """every hook x {STOP, ERROR, DECLINED} x call number 0/1 on a set of exchange shapes (plain, chunked with trailers, HEAD, interim 100, 101 upgrade,
+    CONNECT accepted / refused, close-delimited, pipelined): the call in which a callback refuses must report it; compared with the model"""
+    rng = ctx.rng
+    shapes = {
+        "plain": (b"POST /p HTTP/1.1\r\nHost: a\r\nContent-Length: 3\r\n\r\nabc", b"HTTP/1.1 200 OK\r\nContent-Length: 2\r\n\r\nhi"),
+        "chunked": (b"POST /c HTTP/1.1\r\nHost: a\r\nTransfer-Encoding: chunked\r\n\r\n3\r\nabc\r\n0\r\nX-T: 1\r\n\r\n",
+                    b"HTTP/1.1 200 OK\r\nTransfer-Encoding: chunked\r\n\r\n2\r\nhi\r\n0\r\nX-U: 2\r\n\r\n"),
+        "head": (b"HEAD /h HTTP/1.1\r\nHost: a\r\n\r\n", b"HTTP/1.1 200 OK\r\nContent-Length: 10\r\n\r\n"),
+        "interim": (b"POST /i HTTP/1.1\r\nHost: a\r\nExpect: 100-continue\r\nContent-Length: 3\r\n\r\nabc", b"HTTP/1.1 100 Continue\r\n\r\nHTTP/1.1 200 OK\r\nContent-Length: 0\r\n\r\n"),
+        "upgrade": (b"GET /u HTTP/1.1\r\nHost: a\r\nUpgrade: websocket\r\nConnection: Upgrade\r\n\r\n", b"HTTP/1.1 101 Switching Protocols\r\nUpgrade: websocket\r\n\r\n\x81\x02hi"),
+        "connect-ok": (b"CONNECT a:443 HTTP/1.1\r\nHost: a:443\r\n\r\n", b"HTTP/1.1 200 Established\r\n\r\n"),
+        "connect-refused": (b"CONNECT a:443 HTTP/1.1\r\nHost: a:443\r\n\r\n", b"HTTP/1.1 403 No\r\nContent-Length: 2\r\n\r\nno"),
+        "close-delimited": (b"GET /d HTTP/1.0\r\n\r\n", b"HTTP/1.0 200 OK\r\n\r\nbody until close"),
+        "pipelined": (b"GET /1 HTTP/1.1\r\nHost: a\r\n\r\nGET /2 HTTP/1.1\r\nHost: a\r\n\r\n", b"HTTP/1.1 200 OK\r\nContent-Length: 0\r\n\r\nHTTP/1.1 204 No\r\n\r\n"),
+    }
+    out = []
+    for name, (rq, rs) in sorted(shapes.items()):
+        for h in range(19):
+            if h == 6:
+                continue
+            for a in (2, 3, 1):
+                for n in (0, 1):
+                    if n == 1 and h not in (3, 5, 12, 14, 0, 10, 18):
+                        continue
+                    mode = rng.choice(["whole", "random"])
+                    ops = ["O"] + ["Q" + x.hex() for x in sconnp.cut(rq, sconnp.split_points(rq, rng, mode))] + ["S" + x.hex() for x in sconnp.cut(rs, sconnp.split_points(rs, rng, mode))]
+                    ops += rng.choice([["C"], ["Q41", "S42", "C"], ["c", "C"]])
+                    out.append(sconnp.case(ops, cfg=sconnp.cfg_str(p=rng.choice([1, 9])), script="%d:%d:%d" % (h, n, a)))
+    return out
+
+
 def check(ctx):
     pr = vf.proof_step(ctx, "Properties_C09")
     n = 9000 if ctx.thorough() else 2500
-    cases = cp.corpus_cases(ctx, chunkings=2) + cp.general_cases(ctx, n, n)
+    vmx = verdict_matrix(ctx)
+    vmset = set(vmx)
+    cases = cp.corpus_cases(ctx, chunkings=2) + cp.general_cases(ctx, n, n) + vmx
     impl, model, verdicts, traces, crash = cp.correspond_and_oracle(ctx, cases)
     if crash:
         vf.report_crash(ctx, "S-connp", cases, crash)
@@ -75,6 +109,34 @@ def check(ctx):
                 failing.append(i)
                 vf.violation(ctx, "bytes-%d" % i, {"kind": "consumed-count-or-byte-counter-wrong", "suite": "S-connp", "case": c, "problem": why, "implementation": sconnp.project(o, PROP)[-2500:]})
     ctx.cov["suites"]["S-connp"]["byte_accounting_failures"] = nacc
+    # a refusing callback is reported by the call in which it ran (single-entry scripts of the verdict matrix). Left out: the raw header / trailer data receivers
+    # (hooks 3, 7, 12, 15) and RESPONSE_BODY_DATA (14), whose return value the unchanged library ignores on some paths (flush at the end of a call, end-of-body
+    # marker) -- those stay with the correspondence; STOP from the line / body-data hooks is reported as ERROR by the unchanged library, so STOP or ERROR counts
+    nref = 0
+    for i, (c, o) in enumerate(zip(cases, impl)):
+        sc = c.split("\t")[2]
+        if sc == "-" or ";" in sc or c not in vmset:
+            continue
+        h, n, a = map(int, sc.split(":"))
+        if a not in (2, 3) or h in (3, 7, 12, 15, 14) or h > 18:
+            continue
+        ops = c.split("\t")[3].split(",")
+        cnt, hit = 0, None
+        for k, r in enumerate(sconnp.split_ops(o)):
+            evs, nums = sconnp.parse_op(r)
+            for e in evs.split(" "):
+                m = re.match(r"h(\d+)\.", e)
+                if m and int(m.group(1)) == h:
+                    if cnt == n and hit is None:
+                        hit = (k, nums)
+                    cnt += 1
+        if hit and hit[0] < len(ops) and ops[hit[0]][0] in "QSqs" and hit[1] and hit[1][0] not in (6, 3):
+            nref += 1
+            if nref <= 2:
+                failing.append(i)
+                vf.violation(ctx, "verdict-%d" % i, {"kind": "callback-refusal-not-reported-by-the-call", "suite": "S-connp", "case": c, "hook": h, "action": "STOP" if a == 2 else "ERROR",
+                                                     "call_index": hit[0], "call_returned": hit[1][0], "implementation": sconnp.project(o, PROP)[-2000:]})
+    ctx.cov["suites"]["S-connp"]["refusals_not_reported"] = nref
     mm = [i for i in range(min(len(pi), len(pm))) if pi[i] != pm[i]] if not crash else []
     ctx.cov["suites"]["S-connp"]["mismatches"] = len(mm)
     ctx.cov["suites"]["S-connp"]["oracle_failures"] = len(failing)
